@@ -3,6 +3,9 @@ import LinOp.Core.Bridge
 import Mathlib.Algebra.BigOperators.Ring.Finset
 import Mathlib.Algebra.BigOperators.Fin
 import Mathlib.Tactic.Ring
+import Mathlib.Data.Matrix.Mul
+import Mathlib.Data.Matrix.Basic
+import Mathlib.LinearAlgebra.Matrix.Trace
 /-!
 C07 — helper lemmas: dual-number bookkeeping, the bilinear form as a `Finset` sum, and one step lemma per
 operator class (the induction hypothesis of the sub-operator is an explicit hypothesis, quantified over
@@ -43,64 +46,61 @@ theorem sumFin_eps (n : Nat) (f : Fin n → Dual α) : (sumFin n f).eps = ∑ i,
     congr 1
     exact ih _
 
-/-! ### The bilinear form as a Finset sum -/
+/-! ### The bilinear form as a trace -/
+open Matrix
 
-/-- `Σ_c Σ_i Σ_j U[i,c] A[i,j] V[j,c]`. -/
+/-- `Σ_c Σ_i Σ_j U[i,c] A[i,j] V[j,c] = tr(Uᵀ A V)`. -/
 def bilS {n m d : Nat} (A : Mat α n m) (U : Mat α n d) (V : Mat α m d) : α :=
-  ∑ c, ∑ i, ∑ j, U i c * A i j * V j c
+  Matrix.trace ((Matrix.of U)ᵀ * Matrix.of A * Matrix.of V)
+
+theorem bilS_eq_sum {n m d : Nat} (A : Mat α n m) (U : Mat α n d) (V : Mat α m d) :
+    bilS A U V = ∑ c, ∑ i, ∑ j, U i c * A i j * V j c := by
+  simp only [bilS, Matrix.trace, Matrix.diag_apply, Matrix.mul_apply, Matrix.transpose_apply, Matrix.of_apply,
+    Finset.sum_mul]
+  refine Finset.sum_congr rfl fun c _ => ?_
+  exact Finset.sum_comm
 
 theorem bil_eq_bilS {n m d : Nat} (A : Mat α n m) (U : Mat α n d) (V : Mat α m d) : bil A U V = bilS A U V := by
-  simp [bil, bilS, sumFin_eq_sum]
+  rw [bilS_eq_sum]
+  simp [bil, sumFin_eq_sum]
 
 theorem bilS_add {n m d : Nat} (A B : Mat α n m) (U : Mat α n d) (V : Mat α m d) :
     bilS (fun i j => A i j + B i j) U V = bilS A U V + bilS B U V := by
-  simp only [bilS, mul_add, add_mul, Finset.sum_add_distrib]
+  have : (Matrix.of fun i j => A i j + B i j) = Matrix.of A + Matrix.of B := rfl
+  simp only [bilS, this, Matrix.mul_add, Matrix.add_mul, Matrix.trace_add]
 
 theorem bilS_scale {n m d : Nat} (A : Mat α n m) (k : α) (U : Mat α n d) (V : Mat α m d) :
     bilS (fun i j => A i j * k) U V = bilS A (fun i c => U i c * k) V := by
-  unfold bilS
+  simp only [bilS_eq_sum]
   refine Finset.sum_congr rfl fun c _ => Finset.sum_congr rfl fun i _ => Finset.sum_congr rfl fun j _ => ?_
-  ring
-
-theorem bilS_const {n m d : Nat} (A : Mat α n m) (k : α) (U : Mat α n d) (V : Mat α m d) :
-    bilS (fun i j => A i j * k) U V = (∑ i, ∑ c, U i c * (∑ j, A i j * V j c)) * k := by
-  unfold bilS
-  rw [Finset.sum_comm, Finset.sum_mul]
-  refine Finset.sum_congr rfl fun i _ => ?_
-  rw [Finset.sum_mul]
-  refine Finset.sum_congr rfl fun c _ => ?_
-  rw [Finset.mul_sum, Finset.sum_mul]
-  refine Finset.sum_congr rfl fun j _ => ?_
   ring
 
 theorem bilS_mul_right {n k m d : Nat} (D : Mat α n k) (B : Mat α k m) (U : Mat α n d) (V : Mat α m d) :
     bilS D U (fun l c => ∑ j, B l j * V j c) = bilS (fun i j => ∑ l, D i l * B l j) U V := by
-  unfold bilS
-  refine Finset.sum_congr rfl fun c _ => Finset.sum_congr rfl fun i _ => ?_
-  simp only [Finset.mul_sum, Finset.sum_mul]
-  rw [Finset.sum_comm]
-  refine Finset.sum_congr rfl fun j _ => Finset.sum_congr rfl fun l _ => ?_
-  ring
+  have h1 : (Matrix.of fun l c => ∑ j, B l j * V j c) = Matrix.of B * Matrix.of V := by
+    ext l c; simp [Matrix.mul_apply]
+  have h2 : (Matrix.of fun i j => ∑ l, D i l * B l j) = Matrix.of D * Matrix.of B := by
+    ext i j; simp [Matrix.mul_apply]
+  simp only [bilS, h1, h2, Matrix.mul_assoc]
 
 theorem bilS_mul_left {n k m d : Nat} (A : Mat α n k) (D : Mat α k m) (U : Mat α n d) (V : Mat α m d) :
     bilS D (fun l c => ∑ i, A i l * U i c) V = bilS (fun i j => ∑ l, A i l * D l j) U V := by
-  unfold bilS
-  refine Finset.sum_congr rfl fun c _ => ?_
-  simp only [Finset.mul_sum, Finset.sum_mul]
-  rw [Finset.sum_comm]
-  refine Finset.sum_congr rfl fun i _ => ?_
-  rw [Finset.sum_comm]
-  refine Finset.sum_congr rfl fun j _ => Finset.sum_congr rfl fun l _ => ?_
-  ring
+  have h1 : (Matrix.of fun l c => ∑ i, A i l * U i c) = (Matrix.of A)ᵀ * Matrix.of U := by
+    ext l c; simp [Matrix.mul_apply]
+  have h2 : (Matrix.of fun i j => ∑ l, A i l * D l j) = Matrix.of A * Matrix.of D := by
+    ext i j; simp [Matrix.mul_apply]
+  simp only [bilS, h1, h2, Matrix.transpose_mul, Matrix.transpose_transpose, Matrix.mul_assoc]
 
 theorem bilS_sum {n m d k : Nat} (A : Fin k → Mat α n m) (U : Mat α n d) (V : Mat α m d) :
     bilS (fun i j => ∑ b, A b i j) U V = ∑ b, bilS (A b) U V := by
-  unfold bilS
-  simp only [Finset.mul_sum, Finset.sum_mul]
-  rw [Finset.sum_comm]
-  refine Finset.sum_congr rfl fun c _ => ?_
-  rw [Finset.sum_comm]
-  refine Finset.sum_congr rfl fun i _ => ?_
-  rw [Finset.sum_comm]
+  have h : (Matrix.of fun i j => ∑ b, A b i j) = ∑ b, Matrix.of (A b) := by
+    ext i j; simp [Matrix.sum_apply]
+  simp only [bilS, h, Matrix.mul_sum, Matrix.sum_mul, Matrix.trace_sum]
+
+/-- `tr(Uᵀ M)` is the entrywise pairing `Σ_i Σ_c U[i,c] M[i,c]`. -/
+theorem pairing_eq_trace {n d : Nat} (U M : Mat α n d) :
+    ∑ i, ∑ c, U i c * M i c = Matrix.trace ((Matrix.of U)ᵀ * Matrix.of M) := by
+  simp only [Matrix.trace, Matrix.diag_apply, Matrix.mul_apply, Matrix.transpose_apply, Matrix.of_apply]
+  exact Finset.sum_comm
 
 end LinOp.C07
